@@ -75,7 +75,8 @@ PROFILES = {
                 gens=[dict(ids=["VmD", "VmS", "VmAx", "VmAx2", "VmMask", "Rep", "Rep3", "SVm", "VmSw", "VmZ", "RepZ", "VmAx1", "VmAx1"], first=["simulate", "generate"], edits=["update", "updateargs", "indexupdate", "indexregen", "project"], depth=3, n=(128, 2400)),
                       dict(ids=["VmD", "Rep3"], ids_thorough=["VmD", "VmS", "Rep", "Rep3", "VmAx"], first=["generate"], edits=[], depth=0, n=(0, 0), sub=True)]),
     "C12": dict(own=CORE,
-                gens=[dict(ids=["Sc1", "Sc2", "Sc3", "DmSc", "Acc", "Red", "It", "ItF"], first=["simulate", "generate"], edits=["update", "updateargs", "regenerate", "indexupdate", "indexregen"], depth=2, n=(64, 900))]),
+                gens=[dict(ids=["Sc1", "Sc2", "Sc3", "DmSc", "Acc", "Red", "It", "ItF", "ScV", "ScV3"], first=["simulate", "generate"], edits=["update", "updateargs", "regenerate", "indexupdate", "indexregen"], depth=2, n=(80, 1100)),
+                      dict(ids=["ScZ", "ItZ", "ItFZ"], first=["simulate", "generate"], edits=["update", "updateargs"], depth=1, n=(12, 60))]),
     "C13": dict(own=CORE,
                 gens=[dict(ids=["SwXY", "SwSame", "Sw3", "SwN", "SSw", "OrE", "MixE", "MskSw", "VmSw"], first=["simulate", "generate"], edits=["update", "update", "updateargs", "project"], depth=3, n=(128, 2400)),
                       dict(ids=["SwXY", "SwSame"], ids_thorough=["SwXY", "SwSame", "OrE", "MixE", "Sw3"], first=["generate"], edits=[], depth=0, n=(0, 0), sub=True)]),
